@@ -7,6 +7,7 @@
 package main
 
 import (
+	"encoding/hex"
 	"encoding/json"
 	"flag"
 	"fmt"
@@ -512,6 +513,7 @@ func (g *gen) maps() []map[string]string {
 func main() {
 	n := flag.Int("n", 100, "cases")
 	seed := flag.Uint64("seed", 1, "seed")
+	hexIn := flag.String("hex", "", "replay: run exactly this input (hex of its bytes) instead of generating")
 	flag.Parse()
 	r := &rng{s: *seed}
 	enc := json.NewEncoder(os.Stdout)
@@ -528,6 +530,16 @@ func main() {
 		"a == 'b' || c == 'd' && e == 'f'", "!a == 'b' && !has(c)", "a == \"it's\"", "a == 'say \"hi\"'", "a in {'b', \"b\", 'a'}", "a == 'b' )", "( a == 'b'",
 		"a = 'b'", "a & b", "has(a", "has()", "all(x)", "a == b", "a == 'b", "!", "a !  = 'b'", "a\n== 'b'", "!!!has(a)", "a in {'x' 'y'}", "a in {,}",
 		"!(!(a == 'b' && !(!has(c))))"}
+
+	if *hexIn != "" || len(os.Args) > 1 && os.Args[1] == "-hex" {
+		raw, err := hex.DecodeString(*hexIn)
+		if err != nil {
+			fmt.Fprintln(os.Stderr, "bad -hex:", err)
+			os.Exit(2)
+		}
+		fixed = []string{string(raw)}
+		*n = 1
+	}
 
 	for i := 0; i < *n; i++ {
 		g := &gen{r: r, tags: map[string]bool{}, used: map[string][]string{}, maxD: 6}
@@ -603,7 +615,7 @@ func main() {
 		}
 		sort.Strings(tags)
 		_ = enc.Encode(line{Coq: coq, NT: o.accept && mixed && o.text != input, Key: input,
-			Sample: map[string]any{"input": input, "accepted": o.accept, "validate_ok": vok, "canonical": o.text, "evals": o.evals,
+			Sample: map[string]any{"input": input, "input_hex": hex.EncodeToString([]byte(input)), "accepted": o.accept, "validate_ok": vok, "canonical": o.text, "evals": o.evals,
 				"reparsed_canonical": re.text, "uid": o.uid, "reparsed_uid": re.uid, "panic": o.panic + vpan + re.panic},
 			Tags: tags})
 	}
